@@ -16,14 +16,25 @@ class SeqGenerator(numpy.random.Generator):
     After the preset values are exhausted it returns zeros.  Any other distribution
     method raises, so an unexpected source of randomness is a hard error."""
 
-    def __new__(cls, values=()):
+    def __new__(cls, values=(), _share=None):
         return super().__new__(cls, numpy.random.PCG64(0))
 
-    def __init__(self, values=()):
+    def __init__(self, values=(), _share=None):
         super().__init__(numpy.random.PCG64(0))
-        self._values = numpy.asarray(values, dtype=float).reshape(-1)
-        self._pos = 0
-        self.calls = []          # list of requested sizes
+        if _share is None:
+            self._values = numpy.asarray(values, dtype=float).reshape(-1)
+            self._state = {"pos": 0}
+            self.calls = []          # list of requested sizes
+        else:                        # a spawned child: same preset stream, same cursor, same request log
+            self._values, self._state, self.calls = _share._values, _share._state, _share.calls
+
+    @property
+    def _pos(self):
+        return self._state["pos"]
+
+    @_pos.setter
+    def _pos(self, v):
+        self._state["pos"] = v
 
     def normal(self, loc=0.0, scale=1.0, size=None):
         shape = () if size is None else (tuple(size) if numpy.iterable(size) else (int(size),))
@@ -37,7 +48,21 @@ class SeqGenerator(numpy.random.Generator):
         return out.reshape(shape) if shape else float(out[0])
 
     def standard_normal(self, size=None, dtype=numpy.float64, out=None):
-        return self.normal(size=size)
+        if out is not None:
+            # numpy fills `out` (C order) and returns it
+            vals = self.normal(size=out.shape)
+            out[...] = numpy.asarray(vals).reshape(out.shape)
+            return out
+        r = self.normal(size=size)
+        if numpy.dtype(dtype) != numpy.float64:
+            r = numpy.asarray(r, dtype=dtype) if size is not None else numpy.dtype(dtype).type(r)
+        return r
+
+    def spawn(self, n_children):
+        """children of a scripted generator are scripted too: they continue the parent's preset stream in the
+        order in which they are asked (independent child streams are a property of the real bit generators; for
+        code that is linear in its draws only WHICH draws are consumed matters, and that is logged)"""
+        return [SeqGenerator(_share=self) for _ in range(int(n_children))]
 
     @property
     def consumed(self):
